@@ -3,10 +3,35 @@
 #include <cstdio>
 #include <cstdlib>
 #include <cstring>
+#include <string>
 #include <vector>
+#include <sstream>
 extern "C" void harness(void);
 static std::vector<unsigned long> vals; static size_t pos;
 static unsigned long nextv() { return pos < vals.size() ? vals[pos++] : 0; }
+static std::vector<std::string> ws; static std::vector<unsigned long> wn;
+static size_t count_str(std::string const &h, std::string const &n)
+{ if (n.empty()) return 0; size_t c = 0, p = 0; while ((p = h.find(n, p)) != std::string::npos) { ++c; p += n.size(); } return c; }
+static bool isd(char c) { return c >= '0' && c <= '9'; }
+static size_t find_num(std::string const &h, unsigned long v, size_t from, size_t *cnt)
+{
+  std::string a = std::to_string(v), b = std::to_string((long)v);
+  size_t first = std::string::npos, c = 0;
+  for (std::string const &n : {a, b})
+  {
+    size_t p = from;
+    while ((p = h.find(n, p)) != std::string::npos)
+    {
+      bool lb = p == 0 || !isd(h[p - 1]);
+      bool rb = p + n.size() >= h.size() || !isd(h[p + n.size()]);
+      if (lb && rb) { ++c; if (p < first) first = p; }
+      p += n.size();
+    }
+    if (a == b) break;
+  }
+  if (cnt) *cnt = c;
+  return first;
+}
 extern "C" {
 unsigned verif_nondet_uint(void) { return (unsigned)nextv(); }
 unsigned long verif_nondet_ulong(void) { return nextv(); }
@@ -16,6 +41,30 @@ void verif_assert(int c, char const *id) { if (!c) { std::printf("ASSERTION FAIL
 void verif_reach(void) { std::printf("REACHED\n"); }
 int verif_str_eq(char const *a, char const *b) { return a == b || (a && b && std::strcmp(a, b) == 0); }
 int verif_msg_has(char const *hay, char const *needle) { return hay && needle && std::strstr(hay, needle) != nullptr; }
+int verif_msg_starts(char const *hay, char const *lit) { return std::strncmp(hay, lit, std::strlen(lit)) == 0; }
+unsigned verif_watch_str(char const *s) { ws.push_back(s); return (unsigned)ws.size() - 1; }
+unsigned verif_watch_num(unsigned long v) { wn.push_back(v); return (unsigned)wn.size() - 1; }
+unsigned verif_msg_cnt(char const *msg, unsigned i) { return (unsigned)count_str(msg, ws[i]); }
+unsigned verif_msg_ncnt(char const *msg, unsigned i) { size_t c; find_num(msg, wn[i], 0, &c); return (unsigned)c; }
+int verif_msg_before(char const *msg, unsigned i, unsigned j)
+{ std::string h(msg); size_t a = h.find(ws[i]), b = h.find(ws[j]); return a != std::string::npos && b != std::string::npos && a < b; }
+int verif_msg_nbefore(char const *msg, unsigned i, unsigned j)
+{ std::string h(msg); size_t a = find_num(h, wn[i], 0, nullptr), b = find_num(h, wn[j], 0, nullptr); return a != std::string::npos && b != std::string::npos && a < b; }
+int verif_msg_sbefore_n(char const *msg, unsigned i, unsigned j)
+{ std::string h(msg); size_t a = h.find(ws[i]), b = find_num(h, wn[j], 0, nullptr); return a != std::string::npos && b != std::string::npos && a < b; }
+// streams owned by the harness: os is a std::ostringstream*
+void verif_stream_set(void *os, unsigned long width, unsigned flags, unsigned char fill)
+{ auto *s = static_cast<std::ostringstream *>(os); s->width((std::streamsize)width); s->flags((std::ios_base::fmtflags)flags); s->fill((char)fill); }
+unsigned long verif_stream_width(void *os) { return (unsigned long)static_cast<std::ostringstream *>(os)->width(); }
+unsigned verif_stream_flags(void *os) { return (unsigned)static_cast<std::ostringstream *>(os)->flags(); }
+unsigned verif_stream_fill(void *os) { return (unsigned char)static_cast<std::ostringstream *>(os)->fill(); }
+unsigned verif_stream_cnt(void *os, unsigned i) { return (unsigned)count_str(static_cast<std::ostringstream *>(os)->str(), ws[i]); }
+unsigned verif_stream_ncnt(void *os, unsigned i) { size_t c; find_num(static_cast<std::ostringstream *>(os)->str(), wn[i], 0, &c); return (unsigned)c; }
+unsigned verif_stream_nl(void *os) { return (unsigned)count_str(static_cast<std::ostringstream *>(os)->str(), "\n"); }
+int verif_stream_before(void *os, unsigned i, unsigned j)
+{ std::string h = static_cast<std::ostringstream *>(os)->str(); size_t a = h.find(ws[i]), b = h.find(ws[j]); return a != std::string::npos && b != std::string::npos && a < b; }
+// text of the stream for native-only exact comparison (the model cannot provide text)
+char const *verif_stream_text(void *os) { static std::string keep; keep = static_cast<std::ostringstream *>(os)->str(); return keep.c_str(); }
 }
 int main()
 {
